@@ -3,7 +3,7 @@ From Verif Require Import GoSem Patch PatchProofsCheck.
 
 (** What was observed for a pair of documents (patch.MPDDiff directly, or the /patch/ handler) *)
 Record tree_obs := mkTO {
-  to_status : Z;            (* 200 patch, 425 same publishTime, 410 too late, 500 other error, 599 panic *)
+  to_status : Z;            (* 200 patch, 425 same publishTime, 410 too late, 400 no PatchLocation/ttl, 500 other error, 599 panic *)
   to_mpdId : string;
   to_orig : string;
   to_new : string;
